@@ -10,7 +10,7 @@ from .kinds import INT, BOOL, REAL, NONE, FN, Opaque, Ref, Tup, ListT, DictT, Ob
 from . import native, witness
 
 INTS = [-2, 0, 1, 2, 3, 1001]
-REALS = [0.0, 0.5, 1.0, 1.0 + 1e-12, 2.5]  # includes a near-tie: tolerances hidden in comparisons must show
+REALS = [0.0, 0.5, 1.0, 1.0 + 1e-12, 2.5, 100.0, 100.004]  # includes a near-tie: tolerances hidden in comparisons must show
 MAXLEN = 3
 
 
